@@ -1303,7 +1303,14 @@ class ExprMixin:
                 self._child_dispatch = False
                 return rv, o
             return self.call_method(ci, name, args, kwargs, preds)
-        if ca is not None:
+        depth = 0
+        x = recv
+        while ca is not None and x is not ca and x.kind in ("sub", "elem") and depth < 6:
+            x = x.args[0]
+            depth += 1
+        # a non-mutating method of a value *loaded from* an entry field (depth >= 2,
+        # e.g. blob.decode()) is not an access to the shared state itself
+        if ca is not None and (x is ca or x == ca) and (depth <= 1 or name in MUTATING):
             rv = Val("call", name, recv, tuple(args), self.kw_tuple(kwargs))
             if name in MUTATING:
                 o = self.node("cs_write", preds, may_raise=True, exc=("KeyError", "IndexError", "ValueError"), name=ca.args[1], op="call:" + name, cls=ca.args[0], target=recv, args=tuple(args), value=Val("tuple", *args))
